@@ -80,8 +80,18 @@ def raw_peek_frame(chk):
                     widths.append(k.value.value)
                 elif k.arg in ("collect", "times"):
                     widths.append(99)
-    chk.frame("frame.parse_operator_reads_at_most_three_characters", all(w <= 3 for w in widths), {"widths": widths},
-              what=f"parse_operator looks further ahead than 3 characters ({widths}): the finite evaluation is not complete")
+    known = [w for w in widths if w != 99]
+    if 99 in widths and all(w <= 3 for w in known):
+        # a width that is not a literal (taken from a table, a variable): how far the function looks
+        # is not known to this scan -- the finite evaluation may be incomplete; not a verdict
+        from .common import Item
+        chk.items.append(Item("C12.frame.parse_operator_reads_at_most_three_characters", "frame-scan", "undecided",
+                              "frame-scan", 0.0, {"widths": widths}))
+        chk.undecided.append("C12.frame.parse_operator_reads_at_most_three_characters: a look-ahead width of parse_operator "
+                             "is not a literal; the bounded stand-in over mixed spellings decides")
+    else:
+        chk.frame("frame.parse_operator_reads_at_most_three_characters", all(w <= 3 for w in widths), {"widths": widths},
+                  what=f"parse_operator looks further ahead than 3 characters ({widths}): the finite evaluation is not complete")
 
 
 def run(tier, seed, replay):
